@@ -838,6 +838,110 @@ fn execute(bytes: &[u8], runtime_ok: bool, initcode_ok: bool, calldata: &[u8], o
     Ok(())
 }
 
+
+// ------------------------------------------------------------------------------------------
+// independent necessary conditions of validity (EIP-3670 / 4200 / 4750 / 6206 / 7480 / 7620):
+// a container violating one of them must be rejected, whatever else the validator checks
+// ------------------------------------------------------------------------------------------
+
+/// Immediate size of an opcode inside EOF code (`None` = not an EOF opcode); RJUMPV is variable.
+fn eof_imm(op: u8) -> Option<usize> {
+    Some(match op {
+        0x60..=0x7f => (op - 0x5f) as usize,
+        0xe0 | 0xe1 | 0xe3 | 0xe5 | 0xd1 => 2,
+        0xe6 | 0xe7 | 0xe8 | 0xec | 0xee => 1,
+        0xe2 => 1,
+        // valid opcodes without immediates
+        0x00..=0x0b | 0x10..=0x1d | 0x20 | 0x30..=0x37 | 0x3a | 0x3d | 0x3e | 0x40..=0x4a | 0x50..=0x55 | 0x59 | 0x5b..=0x5f | 0x80..=0x9f | 0xa0..=0xa4 | 0xd0 | 0xd2 | 0xd3 | 0xe4 | 0xf3 | 0xf7 | 0xf8 | 0xf9 | 0xfb | 0xfd | 0xfe => 0,
+        _ => return None,
+    })
+}
+
+fn is_terminating(op: u8) -> bool {
+    matches!(op, 0x00 | 0xf3 | 0xfd | 0xfe | 0xe4 | 0xe5 | 0xee | 0xe0)
+}
+
+/// Some(reason) when the container breaks a rule that every valid container satisfies.
+fn must_reject(eof: &Eof) -> Option<String> {
+    let nsec = eof.body.code_section.len();
+    let ncont = eof.body.container_section.len();
+    if nsec == 0 || nsec != eof.body.types_section.len() {
+        return Some("number of code sections differs from the number of type entries".into());
+    }
+    let declared_data = eof.header.data_size as usize;
+    for (si, code) in eof.body.code_section.iter().enumerate() {
+        let code: &[u8] = code.as_ref();
+        if code.is_empty() {
+            return Some(format!("section {si} is empty"));
+        }
+        let mut is_imm = vec![false; code.len()];
+        let mut targets: Vec<(usize, isize)> = vec![];
+        let mut i = 0usize;
+        let mut last_op = 0u8;
+        while i < code.len() {
+            let op = code[i];
+            let Some(mut imm) = eof_imm(op) else { return Some(format!("section {si}: byte {op:#04x} at {i} is not an EOF instruction")) };
+            if op == 0xe2 {
+                if i + 1 >= code.len() {
+                    return Some(format!("section {si}: RJUMPV at {i} without its count byte"));
+                }
+                imm = 1 + 2 * (code[i + 1] as usize + 1);
+            }
+            if i + imm >= code.len() && !(imm == 0) {
+                return Some(format!("section {si}: instruction {op:#04x} at {i} has truncated immediates (or nothing follows it)"));
+            }
+            for k in 1..=imm {
+                is_imm[i + k] = true;
+            }
+            let next = i + 1 + imm;
+            let rd16 = |p: usize| i16::from_be_bytes([code[p], code[p + 1]]) as isize;
+            match op {
+                0xe0 | 0xe1 => targets.push((i, next as isize + rd16(i + 1))),
+                0xe2 => {
+                    for k in 0..=(code[i + 1] as usize) {
+                        targets.push((i, next as isize + rd16(i + 2 + 2 * k)));
+                    }
+                }
+                0xe3 | 0xe5 => {
+                    let t = u16::from_be_bytes([code[i + 1], code[i + 2]]) as usize;
+                    if t >= nsec {
+                        return Some(format!("section {si}: CALLF/JUMPF at {i} names section {t} of {nsec}"));
+                    }
+                    if op == 0xe3 && eof.body.types_section[t].outputs == 0x80 {
+                        return Some(format!("section {si}: CALLF at {i} into the non-returning section {t}"));
+                    }
+                }
+                0xec | 0xee => {
+                    if code[i + 1] as usize >= ncont {
+                        return Some(format!("section {si}: EOFCREATE/RETURNCONTRACT at {i} names sub-container {} of {ncont}", code[i + 1]));
+                    }
+                }
+                0xd1 => {
+                    let off = u16::from_be_bytes([code[i + 1], code[i + 2]]) as usize;
+                    if off + 32 > declared_data {
+                        return Some(format!("section {si}: DATALOADN at {i} reads {off}..{} of a {declared_data}-byte data section", off + 32));
+                    }
+                }
+                _ => {}
+            }
+            last_op = op;
+            i = next;
+        }
+        if !is_terminating(last_op) {
+            return Some(format!("section {si} ends with the non-terminating instruction {last_op:#04x}"));
+        }
+        for (at, t) in targets {
+            if t < 0 || t as usize >= code.len() {
+                return Some(format!("section {si}: relative jump at {at} targets {t}, outside the {}-byte section", code.len()));
+            }
+            if is_imm[t as usize] {
+                return Some(format!("section {si}: relative jump at {at} targets {t}, an immediate byte"));
+            }
+        }
+    }
+    None
+}
+
 /// All laws on one byte string.
 fn full_check(bytes: &[u8], calldata: &[u8], o: &mut Outcome) -> Result<(), Vec<Failure>> {
     let Some(eof) = decode_laws(bytes)? else {
@@ -853,10 +957,16 @@ fn full_check(bytes: &[u8], calldata: &[u8], o: &mut Outcome) -> Result<(), Vec<
     let any = verdict(bytes, None)?;
     ensure!(any || !(rt || ic), "C26|kind-agnostic-verdict", "accepted for a specific kind but rejected without a kind");
     if !(rt || ic) {
+        if must_reject(&eof).is_some() {
+            o.labels.push("rejected:breaks-an-independent-rule");
+        }
         o.labels.push("rejected-by-validation");
         return Ok(());
     }
     o.labels.push("accepted-by-validation");
+    if let Some(why) = must_reject(&eof) {
+        return Err(vec![Failure::new("C26|accepts-invalid-container", format!("validation accepts 0x{} although {why}", hex::encode(&bytes[..bytes.len().min(300)])))]);
+    }
     if eof.body.code_section.len() >= 2 || !eof.body.container_section.is_empty() {
         o.nontrivial = true;
     }
@@ -970,6 +1080,54 @@ fn load_vectors() -> Vec<GoldenCase> {
     out
 }
 
+
+/// Structure-aware mutation: re-aim one relative jump (RJUMP / RJUMPI / one RJUMPV entry) of a
+/// decodable container at an arbitrary byte of its section (instruction starts, immediates, last byte).
+fn retarget(bytes: &[u8], sel_jump: u16, sel_target: u16) -> Vec<u8> {
+    let mut out = bytes.to_vec();
+    let Ok(eof) = Eof::decode(Bytes::copy_from_slice(bytes)) else { return out };
+    let mut start = eof.header.size() + eof.header.types_size as usize;
+    // (absolute position of the 2-byte offset, absolute end of the instruction, section start, section len)
+    let mut slots: Vec<(usize, usize, usize, usize)> = vec![];
+    for code in &eof.body.code_section {
+        let code: &[u8] = code.as_ref();
+        let mut i = 0usize;
+        while i < code.len() {
+            let op = code[i];
+            let mut imm = eof_imm(op).unwrap_or(0);
+            if op == 0xe2 {
+                if i + 1 >= code.len() {
+                    break;
+                }
+                imm = 1 + 2 * (code[i + 1] as usize + 1);
+            }
+            if i + imm >= code.len() {
+                break;
+            }
+            let next = i + 1 + imm;
+            match op {
+                0xe0 | 0xe1 => slots.push((start + i + 1, start + next, start, code.len())),
+                0xe2 => {
+                    for k in 0..=(code[i + 1] as usize) {
+                        slots.push((start + i + 2 + 2 * k, start + next, start, code.len()));
+                    }
+                }
+                _ => {}
+            }
+            i = next;
+        }
+        start += code.len();
+    }
+    if slots.is_empty() {
+        return out;
+    }
+    let (pos, end, sec, len) = slots[(sel_jump as usize * slots.len()) >> 16];
+    let target = sec + ((sel_target as usize * len) >> 16);
+    let off = (target as isize - end as isize) as i16;
+    out[pos..pos + 2].copy_from_slice(&off.to_be_bytes());
+    out
+}
+
 fn mutate_bytes(base: BoxedStrategy<Vec<u8>>) -> BoxedStrategy<Vec<u8>> {
     (base, prop::collection::vec((0u8..6, any::<u16>(), any::<u8>()), 0..4))
         .prop_map(|(mut v, muts)| {
@@ -1040,6 +1198,22 @@ pub fn c26(ctx: &mut Ctx) {
             (mutate_bytes(base), prop::collection::vec(any::<u8>(), 0..8)).prop_map(|(b, calldata)| BytesCase { bytes: Hx(b), calldata })
         },
         t.pick(300_000, 6_000_000),
+        bytes_case,
+    );
+    let c3 = corpus.clone();
+    ctx.run_cases(
+        "retargeted-jumps",
+        "structure-aware mutation of generated valid containers and shipped vectors: one RJUMP / RJUMPI / RJUMPV-entry offset is re-aimed at an arbitrary byte of its section (other instructions, immediates incl. the bytes of RJUMPV tables and PUSH data, the last byte); an independent scan (own immediate table) decides which targets are immediates: validation must reject those, and whatever it accepts is executed",
+        move || {
+            let c = c3.clone();
+            let n = c.len().max(1);
+            let base = prop_oneof![
+                3 => container(1, any::<bool>().boxed()).prop_map(|s| assemble_container(&s, 0)),
+                1 => (0..n).prop_map(move |i| c.get(i).cloned().unwrap_or_default()),
+            ];
+            (base, any::<u16>(), any::<u16>(), prop::collection::vec(any::<u8>(), 0..8)).prop_map(|(b, j, t, calldata)| BytesCase { bytes: Hx(retarget(&b, j, t)), calldata })
+        },
+        t.pick(200_000, 6_000_000),
         bytes_case,
     );
     ctx.run_cases(
